@@ -8,7 +8,7 @@
 From Coq Require Import List ZArith Bool.
 From VLib Require Import Codec Machine.
 From VModel Require Import MemBuf.
-From VProof Require Import MemBuf_proofs.
+From VProof Require Import MemBuf_proofs MemBufHeap_proofs.
 Import ListNotations.
 Open Scope Z_scope.
 
@@ -99,6 +99,46 @@ Print Assumptions C53_simple_get.
 Theorem C53_tier : forall tiers n t, tier_for tiers n = Some t -> n <= t /\ In t tiers.
 Proof. exact tier_for_spec. Qed.
 Print Assumptions C53_tier.
+
+(* ---- the whole heap: many allocations, a handle table (one handle = one owned reference), a
+   reader table.  [cnt st i m] = number of live handles plus reader entries that reference
+   member m of allocation i; [HI st] = every allocation satisfies WF and its outside
+   reference counts are exactly these numbers.  Every operation is guarded as in the driver:
+   it is executed only on a live handle (the caller owns that reference), otherwise skipped. *)
+Theorem C53_heap_invariant : forall thr ops, HI (heap_exec (init thr) ops).
+Proof. intros thr ops. apply heap_inv, HI_init. Qed.
+Print Assumptions C53_heap_invariant.
+
+(* "returned to its pool exactly once, and only after every reference to it has been freed":
+   after every operation sequence each allocation has been put 0 or 1 times, and 1 exactly when
+   no live handle and no reader references any of its buffer objects *)
+Theorem C53_heap_put_once : forall thr ops i, let st := heap_exec (init thr) ops in
+  (i < length (s_fams st))%nat ->
+  (f_puts (get_fam st i) = 0 \/ f_puts (get_fam st i) = 1) /\
+  (f_puts (get_fam st i) = 1 <-> forall m, cnt st i m = 0).
+Proof. intros thr ops i st Hi. apply heap_put_once; [apply heap_inv, HI_init | exact Hi]. Qed.
+Print Assumptions C53_heap_put_once.
+
+(* the Put happens at the step that removes the last reference from the tables *)
+Theorem C53_heap_put_step : forall st o i, HI st -> (i < length (s_fams st))%nat ->
+  (In (Z.of_nat i) (puts_between st (fst (apply_op st o))) <->
+   (~ (forall m, cnt st i m = 0)) /\ (forall m, cnt (fst (apply_op st o)) i m = 0)).
+Proof. exact heap_put_step. Qed.
+Print Assumptions C53_heap_put_step.
+
+(* "while any reference is live it reads the original bytes" *)
+Theorem C53_heap_live_reads : forall st f m, HI st -> 1 <= cnt st f m ->
+  m_live (get_fam st f) m = true /\ f_puts (get_fam st f) = 0 /\
+  h_data st (HBuf f m) = window (m_off (get_fam st f) m) (m_len (get_fam st f) m) (f_bytes (get_fam st f)).
+Proof. exact heap_live_reads. Qed.
+Print Assumptions C53_heap_live_reads.
+
+(* the pooled array of an allocation is never modified by any operation sequence: together
+   with C53_heap_live_reads, a live reference reads its window of the ORIGINAL bytes *)
+Theorem C53_heap_bytes_unchanged : forall st ops i, (i < length (s_fams st))%nat ->
+  f_bytes (get_fam (heap_exec st ops) i) = f_bytes (get_fam st i).
+Proof. exact heap_bytes_unchanged. Qed.
+Print Assumptions C53_heap_bytes_unchanged.
 
 (* The executable predicate that is evaluated on implementation traces holds on every trace
    of the model (whole heap: many allocations, handles, readers), for every operation list. *)
